@@ -16,6 +16,18 @@ CLAIMED = {
              "generation/blockdep in layer 1. Outside: BLOCKDEP safety under NPU block timing; streams of compiled networks.",
         technique="dynamic symbolic execution of the real Python functions over z3 proxies (symx), bounded; counterexample replay",
         design="DESIGN.md §3 C04"),
+    "C05": dict(
+        text="Bounded solver verdict on the real allocators: HillClimbAllocator.allocate_indices for every permutation (= every value "
+             "the RNG can produce) of n<=3 (thorough 4) live ranges over all time-interval vectors with symbolic sizes and mixed "
+             "alignments; the search() publication rule as a one-iteration lemma; allocate() end to end with an arbitrary RNG for a "
+             "bounded number of iterations; GreedyAllocator.alloc as an inductive step from an arbitrary sorted/disjoint state plus "
+             "whole runs; linear allocation with sharing patterns; verify_allocation shown to reject exactly the overlapping placements. "
+             "Oracle: own interval predicate (co-live => disjoint, aligned, total == / >= top).",
+        note="Trusted: z3, symx proxies, stand-in tensor objects (LiveRange is the real class). Outside: more than 4 ranges in whole-run "
+             "harnesses (step lemmas carry the unbounded part), the concrete pseudo-random sequence (all RNG values explored instead), "
+             "Greedy over-reporting by less than one alignment unit is accepted (documented oracle decision).",
+        technique="dynamic symbolic execution of the real Python functions over z3 proxies (symx), bounded; inductive step lemmas; counterexample replay",
+        design="DESIGN.md §3 C05"),
 }
 
 NOT_APPLICABLE = {
